@@ -198,9 +198,9 @@ def execute(case):
             v.probe("timeout:" + case["source"])
             return v
         ab = core.abnormal(res)
-        ice = [p for p in os.listdir(os.path.join(sc.root, "w")) if p.startswith("rustc-ice")]
-        if ab is None and ice:
-            ab = "ice-file"
+        cp = core.contained_panic(res)
+        if cp:
+            v.probe("contained-panic:" + cp)
         if res.exit == 1:
             v.probe("ordinary-failure")
         if ab:
